@@ -36,7 +36,7 @@ def frames_for_labels(labels, blank, rs, run=(1, 3), gap=(0, 2), lead=(0, 2)):
     return path
 
 
-def logits_for_path(path, C, rs, peak=(6.0, 14.0), noise=3.0, confuse=0.0):
+def logits_for_path(path, C, rs, peak=(6.0, 14.0), noise=3.0, confuse=0.0, overshoot=0.0):
     """raw logits (float32) whose arg max follows path; `confuse` = probability of a strong competitor."""
     T = len(path)
     x = rs.uniform(-noise, noise, size=(T, C)).astype(np.float32) - 6.0
@@ -46,6 +46,8 @@ def logits_for_path(path, C, rs, peak=(6.0, 14.0), noise=3.0, confuse=0.0):
             other = rs.randint(0, C)
             if other != c:
                 x[t, other] = x[t, c] - rs.uniform(0.05, 1.5)
+                if overshoot and rs.uniform() < overshoot:
+                    x[t, other] = x[t, c] + rs.uniform(0.05, 1.0)
     # never exactly 0.0 (0 means "pruned" in the sparse representation)
     x[x == 0] = 1e-3
     return x
